@@ -1,7 +1,7 @@
 (* C18 — arbitrary rotations (FieldRotator).  ONLY statements, each closed by [exact].
    [rnd] is the representation hook of the model (see model/Rotator.v); theorems that speak about
    values are stated for every hook with rnd x == x (identity, Qred). *)
-From DF Require Import Prelude Rotator C18_machine C18_geom.
+From DF Require Import Prelude Rotator C18_machine C18_geom C18_field.
 Open Scope Q_scope.
 
 (* clear_rotation restores the original field (and the identity rotation) after any history *)
@@ -127,3 +127,23 @@ Theorem C18_refuse : forall nvdim ndim mapping,
    (nvdim = 3%nat /\ (forall m, In m mapping -> m <> None) /\ exists perm, ordered_idx mapping = Some perm)).
 Proof. exact accepts_iff. Qed.
 Print Assumptions C18_refuse.
+
+(* the same on the field the state machine stores (materialised rotated array, edge padding): every cell
+   of a rotated 3-vector field carries R^ applied to the interpolant of the original components at the
+   back-rotated centre; scalar fields carry the interpolant itself *)
+Theorem C18_rotated_field_value : forall rnd, (forall x, rnd x == x) -> forall perm orig R n' i j k c,
+  (1 <= n0 (f_n orig))%nat -> (1 <= n1 (f_n orig))%nat -> (1 <= n2 (f_n orig))%nat -> (c < 3)%nat ->
+  let g := grids rnd orig in
+  rotated_val rnd 3 perm orig R n' i j k c ==
+  rot_comp rnd R perm
+    (fun e => interp_at rnd (fst (fst g)) (snd (fst g)) (snd g) (f_n orig) (f_val orig) (back_pos rnd orig R n' i j k) e) c.
+Proof. exact rotated_val_spec. Qed.
+Print Assumptions C18_rotated_field_value.
+
+Theorem C18_rotated_field_scalar : forall rnd, (forall x, rnd x == x) -> forall perm orig R n' i j k,
+  (1 <= n0 (f_n orig))%nat -> (1 <= n1 (f_n orig))%nat -> (1 <= n2 (f_n orig))%nat ->
+  let g := grids rnd orig in
+  rotated_val rnd 1 perm orig R n' i j k 0%nat ==
+  interp_at rnd (fst (fst g)) (snd (fst g)) (snd g) (f_n orig) (f_val orig) (back_pos rnd orig R n' i j k) 0%nat.
+Proof. exact rotated_val_scalar. Qed.
+Print Assumptions C18_rotated_field_scalar.
